@@ -96,3 +96,87 @@ void go(Rng& rng)
             UN("pos", +a)
         }
 }
+
+// ++ / -- : new value of the operand and the value the expression returns
+template<class A>
+void incdec(Rng& rng)
+{
+    using TA = inner_t<A>;
+    for (TA l : vals<TA>(rng, 6 * scale_from_env(), sizeof(TA) > 4 ? 13 : 6)) {
+#define ID(NAME, STMT) \
+    { \
+        printf("C12 inc " NAME " %s ", tn<A>().c_str()); \
+        prv(l); \
+        fputs(" => ", stdout); \
+        int vh_rc = sigsetjmp(vh::jb, 1); \
+        if (vh_rc == 0) { \
+            vh::armed = 1; \
+            A c = mk<A>(l); \
+            A ret = (STMT); \
+            vh::armed = 0; \
+            print_num(c); \
+            putchar('|'); \
+            print_num(ret); \
+        } else { \
+            vh::armed = 0; \
+            vh::print_fail(vh_rc); \
+        } \
+        putchar('\n'); \
+    }
+        ID("pre+", ++c)
+        ID("pre-", --c)
+        ID("post+", c++)
+        ID("post-", c--)
+    }
+}
+
+// documentation kernels: the CNL expression next to the hand-written shift-and-operate code
+template<class T, class W, int E1, int E2>
+void kernels(Rng& rng)
+{
+    using A = scaled_integer<T, power<E1>>;
+    using B = scaled_integer<T, power<E2>>;
+    using WA = scaled_integer<W, power<E1>>;
+    auto lv = vals<T>(rng, 8 * scale_from_env(), 3);
+    auto rv = vals<T>(rng, 8 * scale_from_env(), 3);
+#define KN(NAME, CNLEXPR, HANDEXPR) \
+    { \
+        printf("C12 kernel " NAME " %s %s %d %d ", tn<T>().c_str(), tn<W>().c_str(), E1, E2); \
+        prv(l); \
+        putchar(' '); \
+        prv(r); \
+        fputs(" => ", stdout); \
+        int vh_rc = sigsetjmp(vh::jb, 1); \
+        if (vh_rc == 0) { \
+            vh::armed = 1; \
+            auto z = (CNLEXPR); \
+            vh::armed = 0; \
+            print_num(z); \
+            putchar('|'); \
+            int vh_rc2 = sigsetjmp(vh::jb, 1); \
+            if (vh_rc2 == 0) { \
+                vh::armed = 1; \
+                auto h = (HANDEXPR); \
+                vh::armed = 0; \
+                print_tv(h); \
+            } else { \
+                vh::armed = 0; \
+                vh::print_fail(vh_rc2); \
+            } \
+        } else { \
+            vh::armed = 0; \
+            vh::print_fail(vh_rc); \
+        } \
+        putchar('\n'); \
+    }
+    for (T l : lv)
+        for (T r : rv) {
+            A a = _impl::from_rep<A>(l);
+            A a2 = _impl::from_rep<A>(r);
+            B b = _impl::from_rep<B>(r);
+            KN("mulwiden", WA{a} * a2, W(l) * r)
+            KN("mixadd", a + b, (E1 <= E2 ? l + r * (T(1) << (E2 - E1 >= 0 ? E2 - E1 : 0)) : l * (T(1) << (E1 - E2 >= 0 ? E1 - E2 : 0)) + r))
+            KN("average", (WA{a} + a2) >> constant<1>{}, W(l) + r)
+            KN("square", WA{a} * WA{a}, W(l) * W(l))
+        }
+}
